@@ -73,6 +73,8 @@ pub enum Op {
     TicksThenStop { with: bool, k: u8, period_ms: u8 },
     /// delayed_send of a message that stops the actor, then await the end
     DelayedStop { ms: u8 },
+    /// the same with a delay above one second; the elapsed time must not be shorter than the delay
+    LongDelayedStop,
     Feed(u8),
     EndStream,
     /// let the runtime run
@@ -574,6 +576,27 @@ async fn run_program(p: &Program) -> Record {
                 }
                 None => "skip".into(),
             },
+            Op::LongDelayedStop => match &target {
+                Some(a) => {
+                    ended = true;
+                    let t0 = std::time::Instant::now();
+                    let s = g!(a.send(ArmDelayed(Duration::from_millis(1200))));
+                    let e = match futures::select! {
+                        r = a.clone().fuse() => Some(r),
+                        _ = hannibal::runtime::sleep(Duration::from_secs(6)).fuse() => None,
+                    } {
+                        Some(r) => show(r),
+                        None => {
+                            wd = true;
+                            "watchdog".to_string()
+                        }
+                    };
+                    // only a lower bound is asserted: a delayed timer never fires before its delay
+                    let timing = if s == "Ok(())" && e == "Ok(())" && t0.elapsed() < Duration::from_millis(1100) { "early" } else { "in-time" };
+                    format!("{s}/{e}/{timing}")
+                }
+                None => "skip".into(),
+            },
             Op::Feed(n) => match &live.stream {
                 Some(tx) => {
                     for i in 0..*n {
@@ -674,6 +697,7 @@ mod generate {
             2 => Just(Op::Restart),
             2 => (any::<bool>(), 1u8..4, 1u8..4).prop_map(|(with, k, period_ms)| Op::TicksThenStop { with, k, period_ms }),
             1 => (1u8..5).prop_map(|ms| Op::DelayedStop { ms }),
+            1 => Just(Op::LongDelayedStop),
             3 => (0u8..4).prop_map(Op::Feed),
             1 => Just(Op::EndStream),
             2 => Just(Op::Pause),
@@ -692,7 +716,17 @@ mod generate {
         for id in 0..n {
             let t = strat.new_tree(&mut runner).expect("generate");
             use proptest::strategy::ValueTree;
-            let (entry, ops) = t.current();
+            let (entry, mut ops) = t.current();
+            // the long timer costs more than a second of real time: at most one program in 40 keeps it
+            for o in ops.iter_mut() {
+                if *o == Op::LongDelayedStop {
+                    *o = Op::DelayedStop { ms: 3 };
+                }
+            }
+            if id % 40 == 7 {
+                let at = (id as usize / 40) % 3;
+                ops.insert(at.min(ops.len()), Op::LongDelayedStop);
+            }
             out.push(Program { id, entry, ops });
         }
         out
@@ -735,6 +769,9 @@ mod check {
             }
         }
         for (i, r) in recs.iter().enumerate() {
+            if r.ops.iter().any(|o| o.contains("early")) {
+                return Some(format!("C18/timer_early/{}", RTS[i]));
+            }
             if r.ops.iter().any(|o| o.contains("panic")) {
                 return Some(format!("C18/panic/{}", RTS[i]));
             }
@@ -979,7 +1016,11 @@ fn main() {
             let recs: Vec<Record> = hannibal::runtime::block_on(async {
                 let mut out = vec![];
                 for p in &ps {
-                    out.push(run_program(p).await);
+                    match no_panic(run_program(p)).await {
+                        Ok(r) => out.push(r),
+                        // e.g. the debug assertion in from_registry when the fresh service is already gone
+                        Err(()) => out.push(Record { id: p.id, alive_after_entry: "panic".into(), ops: vec!["panic".into()], ..Default::default() }),
+                    }
                 }
                 out
             });
